@@ -52,6 +52,11 @@ type Ctx struct {
 }
 
 func (c *Ctx) Rule(id, kind, decides string) {
+	// helper-parameter bindings are scratch state of one rule: a function that one rule entered as a helper may be
+	// the construct the next rule judges, with its parameters standing for themselves
+	for k := range paramBind {
+		delete(paramBind, k)
+	}
 	c.curRule = id
 	c.Rules = append(c.Rules, RuleDoc{ID: id, Kind: kind, Decides: decides})
 }
